@@ -13,13 +13,13 @@ def run(ctx, res):
     entry_rule(ctx, res)
 
 
-ALL_ASPECTS = ("shape", "options", "fresh", "context", "source", "adaptor-char", "adaptor-len", "tail-ok", "tail-err", "utf8")
+ALL_ASPECTS = ("shape", "options", "fresh", "context", "source", "source-content", "adaptor-char", "adaptor-len", "tail-ok", "tail-err", "utf8")
 ASPECTS = {
     # what each property needs from the entry points (a clause that a property does not state is not checked under its name)
     "C01.entry": ("shape", "options", "fresh", "context", "source", "adaptor-char", "tail-ok", "tail-verdict", "utf8"),
     # the value is the *document's* content only if every entry point feeds the core exactly the input's characters and
     # returns the core's value unchanged
-    "C02.entry": ("source", "adaptor-char", "tail-ok"),
+    "C02.entry": ("source-content", "adaptor-char", "tail-ok"),
     "C05.entry": ("fresh", "adaptor-len", "tail-ok"),
     "C07.entry": ("shape", "fresh", "adaptor-len", "tail-err"),
     # the leniency flags act inside the string scanner only: no entry point branches on them or decodes its input differently
@@ -92,15 +92,23 @@ def entry_rule(ctx, res, rule="C01.entry", aspects=None, only_with_options=False
             if "context" in A:
                 cx = args[1]
                 res.ob(isinstance(cx, Agg) and cx.variant == 0, rule, pkey + "/context", "%s: the root value must be parsed in Context::None (got %r)" % (root, cx))
-            if "source" in A or "utf8" in A:
+            if A & {"source", "source-content", "utf8"}:
                 # the character source: the whole input, nothing else
                 src, fns = entry.peel_adaptors(P, fld.get("chars"))
                 form, why, _ = entry.describe_source(P, src, fns, kind, Top(P.inst[P.roots[root]]["locals"][input_local(P, root)], "input"))
                 forms.append(form)
+                if "source-content" in A and "source" not in A and form == "str-trimmed":
+                    # C02: trimming outside the document changes which texts are accepted (C01), not what an accepted text denotes
+                    res.infos.append("%s: %s reads the trimmed input (accepted under %s: the value of an accepted document is unchanged)" % (rule, root, rule))
+                    why = None
                 res.ob(why is None, rule, pkey + "/source", "%s: %s" % (root, why), sample={"entry": root, "character_source": form})
                 res.count("character_sources_analysed")
             if A & {"tail-ok", "tail-err", "tail-verdict"}:
                 tail_rule(ctx, res, it, o, root, kind, pkey, pref, rule, A)
+        if "source-content" in A and "source" not in A:
+            # C02 speaks of successful parses only: every path that reaches the core must feed it the input's characters; it
+            # is not C02's business whether an ill-formed input reaches the core at all
+            pass
         if "source" in A:
             ok = sorted(set(forms)) in (["str-chars"], ["caller-iterator"], ["utf8-decode"], ["std-invalid", "std-valid"])
             res.ob(ok, rule, key + "/source-paths", "%s: the paths reaching the core are %s; expected one source, or the valid / ill-formed pair of a from_utf8 based decoder" % (root, sorted(forms)))
@@ -113,7 +121,7 @@ def entry_rule(ctx, res, rule="C01.entry", aspects=None, only_with_options=False
     res.floor(rule, "entry_points_analysed", expected)
     if A & {"adaptor-char", "adaptor-len"}:
         res.floor(rule, "adaptors_analysed", expected)
-    if "source" in A:
+    if A & {"source", "source-content"}:
         res.floor(rule, "character_sources_analysed", expected)
     if "utf8" in A:
         res.floor("C01.utf8", "byte_decoders_analysed", 2)
